@@ -186,6 +186,9 @@ impl SyncOracle {
             for (f, t) in [(*a as usize, *b as usize), (*b as usize, *a as usize)] {
                 if let Outcome::SyncGen { msg: Some(bytes), from, .. } = w.sync_gen(f, t) {
                     quiet = false;
+                    if std::env::var_os("AMSIM_TRACE_SYNC").is_some() {
+                        eprintln!("  gen {f}->{t}: {:?}", automerge::sync::Message::decode(&bytes));
+                    }
                     self.check_message(w, from, &bytes)?;
                 }
             }
